@@ -53,7 +53,8 @@ CLAIMS['C12'] = dict(
        'func_gets and func_int_general return well-formed tensors with the expected mode sizes; the outside-the-box test '
        'has both sides and keeps the fill value; the documented rejections (asymmetric box, unknown kind) are in place; '
        'func_basis stores the linear term for every basis size >= 2 (abstract execution at m = 2, 3, 5); no float is stored '
-       'into an integer buffer (an integer fill value does not make the result buffer integer).',
+       'into an integer buffer (an integer fill value does not make the result buffer integer); the rows built by func_basis '
+       'are T_0 .. T_{m-1} as polynomials (bounded symbolic execution for m = 1, 2, 3, 5).',
   note='Not decided (numerical core of the property): exactness on polynomials, differentiation matrices, fit accuracy, '
        'agreement of values between TT and dense routines.')
 CLAIMS['C14'] = dict(
@@ -83,7 +84,8 @@ CLAIMS['C01'] = dict(
        'return well-formed tensors with ranks a+b / a*b / a and the input mode sizes; full returns exactly the d mode axes; '
        'ranks/shape/size report the core dimensions; a number operand enters the cores with total degree 1; mean and the '
        'natural-norm interface vectors (both directions) divide every sum over a mode index by the size of that very mode, sum '
-       'adds all prod(n) terms undivided (term-count facet).',
+       'adds all prod(n) terms undivided (term-count facet); no product over the vector of mode sizes is formed in integer '
+       'arithmetic.',
   note='Not decided (the numerical core): values, weights of mean, block contents, rounding, the bit-for-bit integer claim; '
        'getter (numba). Loops over cores are unrolled for d <= 4: first/middle/last core behaviour is covered, not an induction on d.')
 CLAIMS['C07'] = dict(
@@ -93,7 +95,8 @@ CLAIMS['C07'] = dict(
        'of als and als_func; constant-rank mode returns the shape and ranks of the initial tensor; every core-slice update goes '
        'through the regularised weighted helper with lamb and w forwarded; w enters both AtA and Aty; the system is AtA + lamb I; '
        'missing slices are rejected unless allowed; sweep counter / callback / stop protocol; adaptive mode sends the weights '
-       'toward the core visited next.',
+       'toward the core visited next; every path through one sweep step recomputes the interface of the next core; optional '
+       'numeric parameters are tested with "is None".',
   note='Not decided: monotone descent, per-core optimality as values, restart equivalence, sample-order independence.')
 CLAIMS['C11'] = dict(
   technique='well-formedness typing of every TT-returning routine for unconstrained symbolic sizes + NaN-taint / guarded-division dataflow',
@@ -102,7 +105,8 @@ CLAIMS['C11'] = dict(
        'the truncated factorisations keep the rank floor max(1,.); no division / reciprocal / log with a data-derived, unguarded '
        'denominator flows into a returned tensor or into norm/sum/mean/mul_scalar/erank/accuracy; the -1 sentinel branch of '
        'accuracy dominates the quotient; no square root of a possibly negative scalar product is returned unguarded; no '
-       'emptiness test of a sample selection is applied to the size of its boolean mask (mean of an empty slice = NaN).',
+       'emptiness test of a sample selection is applied to the size of its boolean mask (mean of an empty slice = NaN); the '
+       'eigenvalues of a Gram matrix are clamped at 0 before their square root is taken.',
   note='Not decided: overflow/underflow, LAPACK finiteness, NaN from user data. Accepted denominators are an explicit table '
        '(dense convenience path of accuracy). Grid sizes n_k >= 2 assumed for the Chebyshev routines.')
 
@@ -178,7 +182,8 @@ CLAIMS['C15'] = dict(
        'extended index table enumerate the composite row in the same order and are filtered by the same selection; pivot = first '
        'core per direction; 2**(p/d) once per core; every reported value is get(Y, i) of the argument at the reported index; '
        '(i_min, y_min, i_max, y_max) ordered by the comparison on every return path; the candidates are re-ordered by the argsort '
-       'permutation unconditionally at every step; optima_qtt rejections and back-mapping with the checked exponent.',
+       'permutation unconditionally at every step; the normalised Chebyshev basis of the functional variant is sqrt(1/2), T_1, '
+       'T_2, ... as polynomials; optima_qtt rejections and back-mapping with the checked exponent.',
   note='Not decided: exactness under a full beam / rank 1, numerical range of candidate norms (overflow of squares), '
        'optima_tt_maxvol.')
 CLAIMS['C17'] = dict(
